@@ -125,6 +125,10 @@ class TransformationsFilter(BaseFilter):
         for a in glyph.anchors:
             a.x, a.y = matrix.transformPoint((a.x, a.y))
 
-        glyph.width, glyph.height = matrix.transformVector((glyph.width, glyph.height))
+        # the horizontal and the vertical advance are two vectors, (width, 0) and
+        # (0, height): transformed together as one, a slant would add a share of
+        # the height to the width
+        glyph.width = matrix.transformVector((glyph.width, 0))[0]
+        glyph.height = matrix.transformVector((0, glyph.height))[1]
 
         return True
